@@ -365,9 +365,16 @@ class FutureSpec(SeqSpec):
         # the racing group: Fill against Wait / WaitContext (and a cancel)
         has_fill = rng.random() < 0.85
         grp = []
+        second = None
         if has_fill:
             threads.append({"gate": 0, "kind": "fill", "v": rng.choice([7, 42, -3, 1000001])})
             grp.append(len(threads) - 1)
+            if rng.random() < 0.3:
+                # a second Fill (documented to panic): racing the first one, or later; the value must not change
+                threads.append({"gate": 0 if rng.random() < 0.5 else -1, "kind": "fill", "v": rng.choice([8, 43, -4, 5])})
+                second = len(threads) - 1
+                if threads[second]["gate"] == 0:
+                    grp.append(second)
         for _ in range(rng.choice([0, 1, 2, 2, 3])):
             grp.append(waiter(0))
         rng.shuffle(grp)
@@ -379,9 +386,21 @@ class FutureSpec(SeqSpec):
         if rng.random() < 0.7:
             ops.append(["quiesce"])
         maybe_cancel(0.3)
-        # later waiters
-        for _ in range(rng.choice([0, 1, 1, 2])):
-            ops.append(["spawn", waiter(-1)])
+        if second is not None and threads[second]["gate"] == -1:
+            ops.append(["spawn", second])
+            if rng.random() < 0.5:
+                ops.append(["quiesce"])
+        # later waiters (some with a context that has already ended: an already filled future wins)
+        for _ in range(rng.choice([0, 1, 1, 2, 3])):
+            if nctx and rng.random() < 0.4:
+                c = rng.randrange(nctx)
+                ops.append(["cancel", c])
+                if rng.random() < 0.7:
+                    ops.append(["quiesce"])
+                threads.append({"gate": -1, "kind": "waitctx", "ctx": c})
+                ops.append(["spawn", len(threads) - 1])
+            else:
+                ops.append(["spawn", waiter(-1)])
         maybe_cancel(0.2)
         return {"component": "future", "ops": ops, "cfg": {"threads": threads, "nctx": max(nctx, 1), "ngates": 1}}
 
@@ -433,22 +452,28 @@ class FutureSpec(SeqSpec):
         evs = obs["obs"]
         fails = []
         nfill_cfg = sum(1 for th in case["cfg"]["threads"] if th["kind"] == "fill")
-        fill_call = None
-        fill_v = None
-        fill_ret = None
+        fills = {}            # thread -> [value, index of call, "ret" / "panic" / None, index]
+        for i, e in enumerate(evs):
+            if e[0] == "call-fill":
+                fills[e[1]] = [e[2], i, None, None]
+            elif e[0] in ("ret-fill", "panic-fill") and e[1] in fills:
+                fills[e[1]][2:] = [e[0][:-5], i]
+        winners = [t for t, f in fills.items() if f[2] == "ret"]
+        if len(winners) > 1:
+            fails.append(("two-fills-succeeded", "Fill returned normally in goroutines %r: a Future can be filled exactly once" % winners))
+        if fills and not winners and all(f[2] is not None for f in fills.values()):
+            fails.append(("every-fill-panicked", "%d Fill calls were made and every one panicked" % len(fills)))
+        if nfill_cfg <= 1 and any(f[2] == "panic" for f in fills.values()):
+            fails.append(("fill-panicked", "the only Fill of the scenario panicked"))
+        win_v = fills[winners[0]][0] if len(winners) == 1 else None
+        win_ret = fills[winners[0]][3] if len(winners) == 1 else None
+        first_fill_call = min((f[1] for f in fills.values()), default=None)
         cancelled = {}
         pending = {}
+        seen_values = set()
         for i, e in enumerate(evs):
             k = e[0]
-            if k == "call-fill":
-                if fill_call is None:
-                    fill_call, fill_v = i, e[2]
-            elif k == "ret-fill":
-                fill_ret = i
-            elif k == "panic-fill":
-                if nfill_cfg <= 1:
-                    fails.append(("fill-panicked", "event %d: the only Fill of the scenario panicked" % i))
-            elif k == "cancel":
+            if k == "cancel":
                 cancelled.setdefault(e[1], i)
             elif k == "call-wait":
                 pending[e[1]] = ("wait", None, i)
@@ -456,20 +481,26 @@ class FutureSpec(SeqSpec):
                 pending[e[1]] = ("waitctx", e[2], i)
             elif k == "ret-wait" or (k == "ret-waitctx" and not e[3]):
                 pending.pop(e[1], None)
-                if fill_call is None:
+                seen_values.add(e[2])
+                if first_fill_call is None or first_fill_call > i:
                     fails.append(("returned-without-fill", "event %d: %s returned %r before any Fill was called" % (i, k, e[2])))
-                elif nfill_cfg <= 1 and e[2] != fill_v:
-                    fails.append(("wrong-value", "event %d: %s returned %r but the future was filled with %r" % (i, k, e[2], fill_v)))
+                elif win_v is not None and e[2] != win_v:
+                    fails.append(("wrong-value", "event %d: %s returned %r but the future was filled with %r (the Fill that returned normally)" % (i, k, e[2], win_v)))
             elif k == "ret-waitctx" and e[3]:
                 kind, c, ci = pending.pop(e[1], ("waitctx", None, i))
                 if c is not None and c not in cancelled:
                     fails.append(("ctx-error-without-cancel", "event %d: WaitContext returned an error but context %d was never cancelled" % (i, c)))
                 if e[2] != 0:
                     fails.append(("error-with-value", "event %d: WaitContext returned an error together with the non-zero value %r" % (i, e[2])))
-        if fill_call is not None and fill_ret is None and not any(e[0] == "panic-fill" for e in evs):
-            fails.append(("fill-stuck", "Fill has not returned at quiescence"))
+                if win_ret is not None and ci > win_ret:
+                    fails.append(("late-waiter-not-served", "event %d: WaitContext called (event %d) after Fill had returned (event %d) gave the context error instead of the value" % (i, ci, win_ret)))
+        if len(seen_values) > 1:
+            fails.append(("value-changed", "waiters of one Future obtained different values %r" % sorted(seen_values)))
+        for t, f in sorted(fills.items()):
+            if f[2] is None:
+                fails.append(("fill-stuck", "Fill of goroutine %d has not returned at quiescence" % t))
         for t, (kind, c, ci) in sorted(pending.items()):
-            if fill_ret is not None:
+            if win_ret is not None:
                 fails.append(("waiter-stuck-after-fill", "goroutine %d: %s still blocked at quiescence although Fill has returned" % (t, kind)))
             elif kind == "waitctx" and c in cancelled:
                 fails.append(("waitctx-ignores-cancel", "goroutine %d: WaitContext still blocked at quiescence although context %d was cancelled" % (t, c)))
